@@ -7,7 +7,7 @@ from ..model import (walk, dotted, call_name, kwarg, unparse, short, UNKNOWN,
 from ..cfg import cfg_of
 from ..flow import guards, must_pass, Exploration, loop_slice
 from .. import idioms as I
-from .c14 import Interp, UNK, _key_of
+from .c14 import Interp, UNK, _key_of, resolve_aliases
 
 WD   = ('raptor/worker_default.py', 'DefaultWorker')
 WK   = ('raptor/worker.py', 'Worker')
@@ -101,6 +101,8 @@ def _marks(prog, f):
     for kind, target, stmt in I.stores(f.node):
         if kind != 'assign' or not isinstance(target, ast.Subscript):
             continue
+        # cached `x = self._resources[K]` locals are looked through
+        target = ast.parse(resolve_aliases(f, target), mode='eval').body
         b = target.value
         if isinstance(b, ast.Subscript) and dotted(b.value) == RES and \
                 isinstance(b.slice, ast.Constant):
@@ -142,7 +144,8 @@ def r20_2(prog, rep, rid='R20.2'):
         # (a) free test guards the mark
         verdict = None
         for tid, lab in guards(ga, node.id):
-            a = ga.nodes[tid].ast
+            a = ast.parse(resolve_aliases(fa, ga.nodes[tid].ast),
+                          mode='eval').body
             cell = '%s[%r][%s]' % (RES, K, idx)
             if unparse(a) == cell:
                 ok = lab == 'F'
@@ -716,104 +719,75 @@ def r20_5(prog, rep, rid='R20.5'):
              'pipeline and every other mode to the workers, one route per '
              'task; the agent scheduler forwards a task to raptor iff it has '
              'a raptor_id, is not a raptor worker and was not seen by raptor; '
-             'backlogged raptor tasks are relayed once', minimum=16)
+             'backlogged raptor tasks are relayed once', minimum=15)
     f = prog.method(MA[0], MA[1], '_submit_tasks')
     rep.saw(f)
-    g = cfg_of(f)
-    smap = I.stmt_node_map(g)
+    M = prog.cls(*MA)
     exe = prog.fold(f.module, ast.Name(id='TASK_EXECUTABLE', ctx=ast.Load()))
     if exe is UNK:
         exe = prog.const('task_description.py', 'TASK_EXECUTABLE')
-    routes = {}
-    for c in calls_in(f.node):
-        if call_name(c) in ('self._submit_executable_tasks',
-                            'self._submit_raptor_tasks') and c.args and \
-                isinstance(c.args[0], ast.Name):
-            routes[call_name(c)] = (c, c.args[0].id)
-    if len(routes) != 2:
-        raise AnalysisError('UNRECOGNISED-IDIOM %s: the two submit calls with '
-                            'a list name each not found' % f.where)
-    loop = None
-    appends = {}
-    for c in calls_in(f.node):
-        if isinstance(c.func, ast.Attribute) and c.func.attr == 'append' and \
-                isinstance(c.func.value, ast.Name):
-            for rname, (rc, lst) in routes.items():
-                if c.func.value.id == lst:
-                    appends.setdefault(rname, []).append(c)
-                    loop = smap[id(c)].loops[-1] if smap[id(c)].loops else loop
-    if loop is None or len(appends) != 2:
-        raise AnalysisError('UNRECOGNISED-IDIOM %s: per-task appends to the '
-                            'two route lists not found' % f.where)
-    lvar = unparse(g.nodes[loop].ast.target)
+    ROUTES = {'self._submit_executable_tasks': 'the agent pipeline',
+              'self._submit_raptor_tasks': 'the workers'}
+    param = [p for p in f.params if p != 'self'][0]
+    # by value: submit one task of each kind and look at the lists handed to
+    # the two routes
+    for mode, want, txt in ((exe, 'self._submit_executable_tasks',
+                             'executable requests go to the agent pipeline'),
+                            ('task.function', 'self._submit_raptor_tasks',
+                             'all other modes go to the workers')):
+        calls = []
 
-    def mode_guard(node):
-        """'exe' | 'other' | None from the guards of node"""
-        res = None
-        for tid, lab in guards(g, node.id):
-            a = g.nodes[tid].ast
-            if not (isinstance(a, ast.Compare) and len(a.ops) == 1):
-                continue
-            l, r = a.left, a.comparators[0]
-            vals = [prog.fold(f.module, x, f.cls) for x in (l, r)]
-            if exe not in [v for v in vals if v is not UNK]:
-                continue
-            other = l if vals[1] == exe and vals[1] is not UNK else r
-            # the other operand derives from the task's mode
-            src = other
-            if isinstance(other, ast.Name):
-                ds = _list_def(f, other.id)
-                src = ds[0] if len(ds) == 1 else other
-            if "'mode'" not in unparse(src) or lvar not in unparse(src):
-                continue
-            eq = isinstance(a.ops[0], (ast.Eq, ast.Is))
-            ne = isinstance(a.ops[0], (ast.NotEq, ast.IsNot))
-            if (eq and lab == 'T') or (ne and lab == 'F'):
-                res = 'exe'
-            elif (eq and lab == 'F') or (ne and lab == 'T'):
-                res = 'other'
-        return res
-    for rname, want, txt in (('self._submit_executable_tasks', 'exe',
-                              'executable requests go to the agent pipeline'),
-                             ('self._submit_raptor_tasks', 'other',
-                              'all other modes go to the workers')):
-        for c in appends[rname]:
-            got = mode_guard(smap[id(c)])
-            rep.check(got == want and c.args and unparse(c.args[0]) == lvar,
-                      rid, f, txt, construct=c,
-                      message='%s: the list handed to %s receives tasks %s: '
-                      '%s' % (f.qual, rname[5:], 'whose mode is not '
-                              'TASK_EXECUTABLE' if want == 'exe' and got
-                              else 'of mode TASK_EXECUTABLE' if got else
-                              'without a test of the task mode against '
-                              'TASK_EXECUTABLE',
-                              'function requests are sent to the agent '
-                              'executor which cannot run them' if want == 'exe'
-                              else 'executable requests are sent to the '
-                              'workers instead of the pilot\'s execution '
-                              'path'), loc=f.loc(c),
-                      history='master.submit_tasks of one TASK_FUNCTION and '
-                      'one TASK_EXECUTABLE request')
-    start, stop, stop_edge = loop_slice(g, loop)
-    allapp = [smap[id(c)].id for cs in appends.values() for c in cs]
-    r = g.reachable(start, skip_nodes=set(allapp), labels=NONEXC)
-    rep.check(loop not in r and g.exit.id not in r, rid, f,
-              'every task is appended to one of the two route lists',
-              construct='route:each', message='%s: a path through the '
-              'per-task loop appends the task to neither route list: the '
-              'request is dropped silently' % f.qual, loc=f.loc(),
-              history='a request whose mode takes that path is never run '
-              'and never reported')
-    done = [e.dst for e in g.succ[loop] if e.label == 'done']
-    for rname, (rc, lst) in sorted(routes.items()):
-        rn = smap[id(rc)].id
-        rep.check(all(must_pass(g, d, g.exit.id, [rn]) for d in done), rid, f,
-                  '%s(%s) is called after the loop on every path'
-                  % (rname[5:], lst), construct=rc,
-                  message='%s does not call %s(%s) on every path after '
-                  'sorting the tasks: that class of requests is never '
-                  'submitted' % (f.qual, rname[5:], lst), loc=f.loc(rc),
-                  history='any bulk containing such a request')
+        def observe(fn, node, env, calls=calls):
+            if fn is not f or node.kind != 'stmt' or node.ast is None:
+                return
+            for c in calls_in(node.ast):
+                if call_name(c) in ROUTES and c.args:
+                    calls.append((call_name(c), ip.ev(fn, c.args[0], env), c))
+
+        ip = Interp(prog, M, observe=observe)
+        task = {'uid': 'task.0000', 'description': {'mode': mode}}
+        exits = ip.run(f, {param: [task]})
+        rep.stat('interp_states', ip.states)
+        got = {}
+        for name, v, c in calls:
+            if not isinstance(v, list) or any(
+                    not isinstance(x, dict) or x.get('uid') is UNK
+                    for x in v):
+                raise AnalysisError('UNRECOGNISED-IDIOM %s: the list handed '
+                                    'to %s cannot be evaluated' % (f.where,
+                                                                   name[5:]))
+            got.setdefault(name, set()).add(
+                tuple(x.get('uid') for x in v))
+        if not got:
+            raise AnalysisError('UNRECOGNISED-IDIOM %s: the two submit calls '
+                                'are not reached' % f.where)
+        here = {n for n, vs in got.items() if any('task.0000' in v
+                                                  for v in vs)}
+        always = {n for n, vs in got.items() if all('task.0000' in v
+                                                    for v in vs)}
+        rep.check(here == {want} and always == {want}, rid, f, txt,
+                  construct='route:%s' % ('exe' if mode == exe else 'other'),
+                  message='%s: a request of mode %r is handed to %s; it must '
+                  'go to %s only: %s' % (
+                      f.qual, mode, ' and '.join(sorted(
+                          ROUTES[n] for n in here)) or 'no route',
+                      ROUTES[want],
+                      'function requests are sent to the agent executor '
+                      'which cannot run them / executable requests are sent '
+                      'to the workers instead of the pilot\'s execution path'
+                      if here else 'the request is dropped silently'),
+                  loc=f.loc(),
+                  history='master.submit_tasks of one request of mode %r'
+                  % (mode,))
+        rep.check(set(got) == set(ROUTES) and bool(exits), rid, f,
+                  'both routes are served on every path (mode %s)' % mode,
+                  construct='route:calls:%s' % ('exe' if mode == exe
+                                                else 'other'),
+                  message='%s does not call %s on the path taken for a '
+                  'request of mode %r: that class of requests is never '
+                  'submitted' % (f.qual, ' / '.join(
+                      n[5:] for n in sorted(set(ROUTES) - set(got))), mode),
+                  loc=f.loc(), history='any bulk containing such a request')
     fe = prog.method(MA[0], MA[1], '_submit_executable_tasks')
     fr = prog.method(MA[0], MA[1], '_submit_raptor_tasks')
     rep.saw(fe)
@@ -866,8 +840,21 @@ def _r20_5_sched(prog, rep, rid):
     for c in calls_in(f.node):
         if isinstance(c.func, ast.Attribute) and c.func.attr == 'put' and \
                 unparse(c.func.value).startswith('self._raptor_queues[') and \
-                c.args and isinstance(c.args[0], ast.Subscript):
-            rcont = root_name(c.args[0])
+                c.args:
+            a0 = c.args[0]
+            if isinstance(a0, ast.Subscript):
+                rcont = root_name(a0) or rcont
+            elif isinstance(a0, ast.Name):
+                # `for name, rtasks in to_raptor.items()` / `.values()`
+                for lp in walk(f.node):
+                    if isinstance(lp, ast.For) and a0.id in [
+                            n.id for n in walk(lp.target)
+                            if isinstance(n, ast.Name)] and \
+                            isinstance(lp.iter, ast.Call) and \
+                            isinstance(lp.iter.func, ast.Attribute) and \
+                            lp.iter.func.attr in ('items', 'values') and \
+                            isinstance(lp.iter.func.value, ast.Name):
+                        rcont = lp.iter.func.value.id
     if rcont is None:
         raise AnalysisError('UNRECOGNISED-IDIOM %s: no put of a per-raptor '
                             'task list on self._raptor_queues[...]' % f.where)
@@ -1009,14 +996,18 @@ def _r20_5_sched(prog, rep, rid):
             continue
         pn = sc[id(c)]
         src = None
+        popped = False
         for s in walk(cb.node):
             if isinstance(s, ast.Assign) and any(
                     isinstance(t, ast.Name) and t.id == c.args[0].id
                     for t in s.targets) and \
-                    unparse(s.value).startswith('self._raptor_tasks[') and \
                     sc[id(s)].id in _anc(gc, pn.id):
-                if must_pass(gc, gc.entry.id, pn.id, [sc[id(s)].id]):
-                    src = s
+                vt = unparse(s.value)
+                if vt.startswith('self._raptor_tasks[') or \
+                        vt.startswith('self._raptor_tasks.pop('):
+                    if must_pass(gc, gc.entry.id, pn.id, [sc[id(s)].id]):
+                        src = s
+                        popped = vt.startswith('self._raptor_tasks.pop(')
         if src is None:
             continue
         n += 1
@@ -1024,8 +1015,10 @@ def _r20_5_sched(prog, rep, rid):
         dels = [sc[id(s)].id for s in walk(cb.node)
                 if isinstance(s, ast.Delete) and
                 any(unparse(t) == cell for t in s.targets)]
-        once = bool(dels) and (must_pass(gc, sc[id(src)].id, pn.id, dels) or
-                               must_pass(gc, pn.id, gc.exit.id, dels))
+        # pop() reads and removes in one step
+        once = popped or bool(dels) and (
+            must_pass(gc, sc[id(src)].id, pn.id, dels) or
+            must_pass(gc, pn.id, gc.exit.id, dels))
         rep.check(once, rid, cb, 'backlog %s is removed when it is relayed'
                   % cell, construct=c,
                   message='%s relays the backlog %s to the raptor queue '
@@ -1033,8 +1026,8 @@ def _r20_5_sched(prog, rep, rid):
                   'same requests again' % (cb.qual, cell), loc=cb.loc(c),
                   history='two masters register one after the other: the '
                   'requests cached for "*" are executed by both')
-    if n < 2:
-        raise AnalysisError('R20.5: fewer than 2 backlog relays in %s'
+    if n < 1:
+        raise AnalysisError('R20.5: no backlog relay found in %s'
                             % cb.where)
 
 
@@ -1063,7 +1056,7 @@ def _is_env_copy(v):
          unparse(v.args[0]) == ENV)))
 
 
-def _res_events(f):
+def _res_events(f, prog=None, cls=None, depth=2):
     """{resource: {'save': [(stmt, name)], 'restore': [(stmt, name)],
     'mutate': [stmt]}} from the statements of f"""
     ev = {r: {'save': [], 'restore': [], 'mutate': [], 'update': [],
@@ -1117,7 +1110,73 @@ def _res_events(f):
                     ev[ENV]['clear'].append(s)
                 else:
                     ev[ENV]['mutate'].append(s)
+    if prog is not None and depth > 0:
+        _helper_events(prog, f, cls, depth, ev)
     return ev
+
+
+def _helper_events(prog, f, cls, depth, ev):
+    """save / restore / change events that happen inside helpers called by f
+    (extract-method refactorings), attributed to the calling statement with
+    the helper's parameters replaced by the argument names"""
+    for s in walk(f.node):
+        if not isinstance(s, (ast.Assign, ast.Expr)):
+            continue
+        for c in calls_in(s):
+            if not (isinstance(c.func, ast.Attribute) and
+                    isinstance(c.func.value, ast.Name) and
+                    c.func.value.id == 'self'):
+                continue
+            g = prog.resolve_call(f, c, cls)
+            if g is None or g.node is f.node or g.cls is None:
+                continue
+            he = _res_events(g, prog, cls, depth - 1)
+            if not any(he[r][k] for r in he for k in he[r]):
+                continue
+            gp = [p for p in g.params if p != 'self']
+            pmap = {}
+            for i, a in enumerate(c.args):
+                if i < len(gp) and isinstance(a, ast.Name):
+                    pmap[gp[i]] = a.id
+            for kw in c.keywords:
+                if kw.arg in gp and isinstance(kw.value, ast.Name):
+                    pmap[kw.arg] = kw.value.id
+            rets = {unparse(n.value) for n in walk(g.node)
+                    if isinstance(n, ast.Return) and n.value is not None}
+            ret = list(rets)[0] if len(rets) == 1 else None
+            tgt = None
+            if isinstance(s, ast.Assign) and s.value is c and \
+                    len(s.targets) == 1 and \
+                    isinstance(s.targets[0], ast.Name):
+                tgt = s.targets[0].id
+            gg = cfg_of(g)
+            gm = I.stmt_node_map(gg)
+            for r in he:
+                h = he[r]
+                for hs, hn in h['save']:
+                    if hn == ret and tgt:
+                        # the copy must be taken before the helper changes
+                        # the resource itself
+                        first = all(must_pass(gg, gg.entry.id, gm[id(m)].id,
+                                              [gm[id(hs)].id])
+                                    for m in h['mutate']
+                                    if id(m) in gm and id(hs) in gm)
+                        (ev[r]['save'] if first else
+                         ev[r]['alias']).append((s, tgt))
+                for hs, hn in h['alias']:
+                    if hn == ret and tgt:
+                        ev[r]['alias'].append((s, tgt))
+                for hs, hn in h['restore']:
+                    if hn in pmap:
+                        ev[r]['restore'].append((s, pmap[hn]))
+                        if any(hs is u for u in h['update']):
+                            ev[r]['update'].append(s)
+                            if any(getattr(cl, 'lineno', 0) <
+                                   getattr(hs, 'lineno', 0)
+                                   for cl in h['clear']):
+                                ev[r]['clear'].append(s)
+                if h['mutate']:
+                    ev[r]['mutate'].append(s)
 
 
 def _in_final(try_ast, stmt):
@@ -1142,7 +1201,7 @@ def r20_6(prog, rep, rid='R20.6'):
             if n.ast is not None and T in n.tries and (
                     first is None or n.id < first.id):
                 first = n
-        ev = _res_events(f)
+        ev = _res_events(f, prog, W)
         for r in STDIO + (ENV,):
             e = ev[r]
             what = 'the environment' if r == ENV else r
